@@ -125,7 +125,7 @@ FUNCTIONS.update({
   'LoadBalancerSink.__OnServerSetJoin': dict(
     cls='HeapBalancerSink', params={'instance': 'SetMember'}, aspect='mem', conc='Members', guar=['MembersLoading'],
     requires=['allocated(instance)', 'allocated(instance.additional_endpoints)', 'instance.service_endpoint is not None', 'allocated(self.__init_done)'],
-    ensures=['implies(ep_ok(self, instance), has_key(self._servers, ep_of(self, instance)))'],
+    ensures=['self.__init_done.flag', 'implies(ep_ok(self, instance), has_key(self._servers, ep_of(self, instance)))'],
     raises={'ValueError': dict(when='not ep_ok(self, instance)')},
     modifies=_MEM_MOD, allocates='any',
     yields=[{'at': 'self.__init_done.wait()'}],
@@ -137,7 +137,7 @@ FUNCTIONS.update({
   'LoadBalancerSink.__OnServerSetLeave': dict(
     cls='HeapBalancerSink', params={'instance': 'SetMember'}, aspect='mem', conc='Members', guar=['MembersLoading'],
     requires=['allocated(instance)', 'allocated(instance.additional_endpoints)', 'allocated(self.__init_done)'],
-    ensures=['implies(ep_ok(self, instance), not has_key(self._servers, ep_of(self, instance)))'],
+    ensures=['self.__init_done.flag', 'implies(ep_ok(self, instance), not has_key(self._servers, ep_of(self, instance)))'],
     raises={'ValueError': dict(when='not ep_ok(self, instance)')},
     modifies=_MEM_MOD, allocates='any',
     yields=[{'at': 'self.__init_done.wait()'}],
